@@ -34,7 +34,9 @@ RULE = ("case = dictionary (variables and records over all 19 numeric types, BOO
         "delays and unrelated traffic | python-can virtual bus). Values: all type boundaries, +-2^k+-1, "
         "random; all 8/16-bit values in the thorough tier; floats incl. inf, -0.0, subnormals; strings of "
         "length 0..200. Oracle: remote.raw == v, local.raw == v, data_store bytes == independent CiA 301 "
-        "encoding; each thread reads back only its own values. Non-trivial = boundary value, payload > 4 "
+        "encoding; each thread reads back only its own values; in cases where all nodes were created from ONE "
+        "ObjectDictionary object, a node's entry read before that node's first write answers exactly like a "
+        "node nobody wrote to (differential against a pristine rig). Member names may contain '.'. Non-trivial = boundary value, payload > 4 "
         "bytes, or a non-inline mode; distinct = canonical JSON.")
 ASSUMPTIONS = [
     "thread interleavings are explored at frame granularity by a harness-owned schedule (one runnable thread "
@@ -219,6 +221,29 @@ def make_od(spec, source):
     return _build_od_code(spec)
 
 
+def pristine_reads(od_spec, source, ent):
+    """What a node that nobody has written to answers for every entry: value, or abort code."""
+    import canopen
+    hub = Hub()
+    port_s = hub.port("server")
+    net_s = canopen.Network(bus=port_s)
+    port_s.network = net_s
+    port_c = hub.port("client")
+    net_c = canopen.Network(bus=port_c)
+    port_c.network = net_c
+    net_s.add_node(canopen.LocalNode(1, make_od(od_spec, source)))
+    remote = canopen.RemoteNode(1, make_od(od_spec, source))
+    net_c.add_node(remote)
+    remote.sdo.RESPONSE_TIMEOUT = 0.05
+    out = {}
+    for e in ent:
+        try:
+            out[(e[0], e[1])] = ("value", get_var(remote.sdo, e[:5], "index").raw)
+        except canopen.SdoAbortedError as ex:
+            out[(e[0], e[1])] = ("abort", ex.code)
+    return out
+
+
 def run_case(case) -> Outcome:
     import canopen
     mode = case["mode"]
@@ -254,11 +279,17 @@ def run_case(case) -> Outcome:
     net_c = NetCls(bus=port_c)
     port_c.network = net_c
     pairs = []
+    # shared_od: the nodes are of one device type and were all given the SAME ObjectDictionary object (one for
+    # the local nodes, one for the remote ones), the way an application that loads the EDS once does it
+    shared = bool(case.get("shared_od")) and mode in ("inline", "baton")
+    pristine = pristine_reads(od_spec, case.get("od_source", "code"), ent) if shared else None
+    od_l = make_od(od_spec, case.get("od_source", "code")) if shared else None
+    od_r = make_od(od_spec, case.get("od_source", "code")) if shared else None
     for th in threads:
         nid = th["node"]
-        local = canopen.LocalNode(nid, make_od(od_spec, case.get("od_source", "code")))
+        local = canopen.LocalNode(nid, od_l if shared else make_od(od_spec, case.get("od_source", "code")))
         net_s.add_node(local)
-        remote = canopen.RemoteNode(nid, make_od(od_spec, case.get("od_source", "code")))
+        remote = canopen.RemoteNode(nid, od_r if shared else make_od(od_spec, case.get("od_source", "code")))
         net_c.add_node(remote)
         remote.sdo.RESPONSE_TIMEOUT = 5.0 if mode != "inline" else 0.05
         pairs.append((remote, local))
@@ -290,6 +321,19 @@ def run_case(case) -> Outcome:
             try:
                 rv = get_var(remote.sdo, e[:5], op["path"])
                 lv = get_var(local.sdo, e[:5], op["path"])
+                if shared and (index, sub) not in last:
+                    # nothing was written to this entry of THIS node yet: it must answer like a node that was
+                    # never written to at all, whatever the other nodes have received meanwhile
+                    try:
+                        got = ("value", rv.raw)
+                    except canopen.SdoAbortedError as ex:
+                        got = ("abort", ex.code)
+                    want = pristine[(index, sub)]
+                    if got[0] != want[0] or (got[0] == "abort" and got[1] != want[1]) or \
+                            (got[0] == "value" and not _same(dt, got[1], want[1])):
+                        local_D.append(Discrepancy("C03/other-nodes-data", f"{tag}: read before this node's first "
+                                                   f"write gives {got!r}; an untouched node gives {want!r}"))
+                        break
                 check_value(tag, dt, op["v"], rv, lv, local, index, sub, local_D)
                 last[(index, sub)] = (e, op["path"], op["v"])
             except Exception as ex:
@@ -494,7 +538,7 @@ def od_strategy(draw):
             subs = sorted(draw(st.sets(st.integers(1, 254), min_size=1, max_size=4)))
             od.append({"kind": draw(st.sampled_from(["record", "array"])), "index": index, "name": name,
                        "members": [{"sub": 0, "name": "count", "dt": rc.UNSIGNED8}] +
-                                  [{"sub": s, "name": f"m{s} " + draw(st.text(NAME_ALPHA, max_size=5)).strip(),
+                                  [{"sub": s, "name": f"m{s} " + draw(st.text(NAME_ALPHA + "..", max_size=5)).strip(),
                                     "dt": draw(st.sampled_from(ALL_DTS))} for s in subs]})
             if od[-1]["kind"] == "array" and 1 not in subs:
                 od[-1]["kind"] = "record"
@@ -510,11 +554,13 @@ def case_strategy(draw, modes):
     mode = draw(st.sampled_from(modes))
     nthreads = 1 if mode == "inline" else draw(st.integers(2 if mode == "baton" else 1, 8 if mode == "baton" else 3))
     node_ids = draw(st.lists(st.integers(1, 127), min_size=nthreads, max_size=nthreads, unique=True))
+    # shared dictionary object: few entries, so that one node's write precedes another node's first read of it
+    shared = mode == "baton" and draw(st.booleans())
     threads = []
     for t in range(nthreads):
         ops = []
         for _ in range(draw(st.integers(1, 6 if mode != "inline" else 10))):
-            e = draw(st.integers(0, len(ent) - 1))
+            e = draw(st.integers(0, min(1, len(ent) - 1) if shared else len(ent) - 1))
             dt = ent[e][5]
             ops.append({"e": e, "path": draw(st.sampled_from(["index", "name", "dotted", "sub", "member"])),
                         "v": draw(value_strategy(dt))})
@@ -528,6 +574,8 @@ def case_strategy(draw, modes):
         threads.append({"node": node_ids[t], "ops": ops})
     case = {"od": od, "mode": mode, "threads": threads,
             "od_source": draw(st.sampled_from(["code", "code", "eds"]))}
+    if shared:
+        case["shared_od"] = True
     if mode == "baton":
         case["order"] = draw(st.lists(st.integers(0, 7), min_size=0, max_size=200))
     if mode == "dispatcher":
@@ -546,7 +594,26 @@ def typed_od():
     od.append({"kind": "record", "index": 0x3000, "name": "Rec", "members":
                [{"sub": 0, "name": "count", "dt": rc.UNSIGNED8}] +
                [{"sub": k + 1, "name": "M " + rc.NAMES[dt], "dt": dt} for k, dt in enumerate(ALL_DTS)]})
+    # member names as vendors write them
+    od.append({"kind": "record", "index": 0x3001, "name": "Limits", "members":
+               [{"sub": 0, "name": "count", "dt": rc.UNSIGNED8},
+                {"sub": 1, "name": "Max. speed", "dt": rc.UNSIGNED16},
+                {"sub": 2, "name": "Gain (approx.)", "dt": rc.REAL32},
+                {"sub": 3, "name": "rev. 1.x name", "dt": rc.VISIBLE_STRING},
+                {"sub": 4, "name": ".hidden", "dt": rc.INTEGER32}]})
     return od
+
+
+def _some_value(dt, i):
+    if dt == rc.BOOLEAN:
+        return True
+    if dt in rc.INTEGERS:
+        return rc.int_range(dt)[1] - i
+    if dt in rc.REALS:
+        return 1.5 + i
+    if dt in (rc.VISIBLE_STRING, rc.UNICODE_STRING):
+        return f"member {i}"
+    return bytes([i % 256]) * 9
 
 
 def enum_cases(thorough):
@@ -621,6 +688,12 @@ def enum_cases(thorough):
         for a in range(0, len(vals), 128):
             yield {"od": od, "mode": "inline",
                    "threads": [{"node": 9, "ops": [{"e": e, "path": "index", "v": v} for v in vals[a:a + 128]]}]}
+    # nodes of one device type created from one and the same ObjectDictionary object
+    for src in ("code", "eds"):
+        for a in range(0, len(ent), 5):
+            mk = lambda off: [{"e": i, "path": "index", "v": _some_value(ent[i][5], i + off)} for i in range(a, min(a + 5, len(ent)))]
+            yield {"od": od, "mode": "inline", "shared_od": True, "od_source": src,
+                   "threads": [{"node": 21, "ops": mk(0)}, {"node": 22, "ops": mk(1)}, {"node": 23, "ops": mk(2)}]}
     # deterministic interleavings of two segmented transfers to different nodes
     sdt = [i for i, en in enumerate(ent) if en[5] == rc.DOMAIN][0]
     vdt = [i for i, en in enumerate(ent) if en[5] == rc.VISIBLE_STRING][0]
